@@ -146,6 +146,10 @@ func TestVerifC09(t *testing.T) {
 			inputs = append(inputs, []byte(vWithNL(byKey[large[r.Intn(len(large))]])))
 			sc := vScenarios()
 			inputs = append(inputs, sc[r.Intn(len(sc))].data)
+			// CR LF line endings: the SAME byte slice is handed to many goroutines, so any
+			// in-place clean-up of the argument is a write to shared memory
+			inputs = append(inputs, []byte(strings.ReplaceAll(vOOVBlock(r, 1)+vWithNL(vTwoEdits(r, raw)), "\n", "\r\n")))
+
 			cs.params["target"] = target
 			// sequential reference results, computed alone on the twin classifier
 			want := make([]Results, len(inputs))
@@ -153,6 +157,11 @@ func TestVerifC09(t *testing.T) {
 				want[i] = ref.Match(in)
 			}
 			c := vBuild(thr, docs)
+			if idx%2 == 1 {
+				// every other storm runs with tracing configured for some licenses (a
+				// goroutine-safe discarding tracer): tracing must only observe
+				c.SetTraceConfiguration(&TraceConfiguration{TracePhases: "tokenize,frequency", TraceLicenses: "License/MIT*,Header/*,License/Apache-2.0/pristine.txt", Tracer: func(string, ...interface{}) {}})
+			}
 			// a few reader failures before the storm: error paths must not leave shared
 			// state (pools, caches) behind that later concurrent calls trip over
 			for k := 0; k < 3; k++ {
